@@ -66,7 +66,7 @@ theorem KeepsRes.krel : KRel (KeepsRes (σ := σ)) where
   active _ _ := keepsRes_of_frame (fun _ => rfl) (fun _ => rfl)
   shared _ _ := keepsRes_of_frame (fun _ => rfl) (fun _ => rfl)
   setProc _ _ _ := keepsRes_of_frame (fun _ => rfl) (fun _ => rfl)
-  schedule _ _ _ _ _ := keepsRes_of_frame (fun _ => rfl) (fun _ => rfl)
+  schedule _ _ _ _ _ _ := keepsRes_of_frame (fun _ => rfl) (fun _ => rfl)
   newEv s r hr := by
     intro h
     refine ⟨h.users, h.level, h.items, ?_⟩
@@ -95,7 +95,7 @@ theorem KeepsRes.krel : KRel (KeepsRes (σ := σ)) where
   defuse s e := keepsRes_of_frame (fun _ => rfl) (fun e' => KState.req_setEv_keep s e e' _ rfl)
   bumpCount s e := keepsRes_of_frame (fun _ => rfl) (fun e' => KState.req_setEv_keep s e e' _ rfl)
   eraseCb s e _ := keepsRes_of_frame (fun _ => rfl) (fun e' => KState.req_setEv_keep s e e' _ rfl)
-  addCb s e _ := keepsRes_of_frame (fun _ => rfl) (fun e' => KState.req_setEv_keep s e e' _ rfl)
+  addCb s e _ _ := keepsRes_of_frame (fun _ => rfl) (fun e' => KState.req_setEv_keep s e e' _ rfl)
   setUsage s e := by
     intro h
     refine ⟨h.users, h.level, h.items, ?_⟩
